@@ -171,7 +171,9 @@ def concretise(c, rng, tier):
     """Give every fault step of a history concrete parameters; at most one step becomes a sweep whose
     points the driver enumerates from what it observes (syscall counts, file sizes)."""
     c = slim(c)
-    c['mode'] = 'file' if int(hashlib.sha1(c['cid'].encode()).hexdigest(), 16) % 2 else 'db'
+    h = int(hashlib.sha1(c['cid'].encode()).hexdigest(), 16)
+    c['mode'] = 'file' if h % 2 else 'db'
+    c['exit'] = 'abrupt' if (h // 2) % 4 == 0 else 'normal'     # how the calling processes end (drive_cache.child_body)
     sweep = None
     for j, s in enumerate(c['hist']):
         if s['op'] == 'kill':
@@ -318,7 +320,7 @@ def account(run, reports, idx, shards):
     run.notes['model_predicted_wrong_returns_replayed'] = pw
     run.notes['model_predicted_wrong_returns_confirmed_on_the_code'] = cf
     stats = {'calls': 0, 'hits': 0, 'misses': 0, 'killed_children': 0, 'kills_by_strace': 0, 'kills_by_marker': 0,
-             'kills_by_delay': 0, 'corruptions': 0, 'raised_after_damage': 0, 'kill_points': set(), 'damage_points': set()}
+             'kills_by_delay': 0, 'corruptions': 0, 'raised_after_damage': 0, 'cpu_budget_exceeded_after_damage': 0, 'kill_points': set(), 'damage_points': set()}
     for cid, line in idx.items():
         sig = []
         dmg = False
@@ -342,6 +344,8 @@ def account(run, reports, idx, shards):
                     stats['hits' if w['r'] == 'hit' else 'misses'] += 1
             if e['cached']['st'] == 'exc' and dmg and e['fresh']['st'] == 'ok':
                 stats['raised_after_damage'] += 1
+            if e['cached']['st'] == 'timeout' and dmg:
+                stats['cpu_budget_exceeded_after_damage'] += 1
             k = e.get('k', {})
             sig.append((e['t'], tuple(e['fl']), e['codec'], e['ne'], e['adbc'], repr(e['texts']),
                         k.get('kind'), k.get('sys', k.get('m')), k.get('n')))
